@@ -72,7 +72,9 @@ RULE = ("systematic: a fixed package (top, a, sub/__init__, sub/k, compiled .so 
         "sampled loader options (allow x force x submodules x by name / relative path / Path / missing Path / hidden / stale search paths / default "
         "search paths x try_relative_path x find_stubs_package x resolve_aliases x resolve_external in {None,True,False} x resolve_implicit x packages "
         "importable from the running interpreter's own sys.path or not) and with the entry points load_git (name / path), dump (one or two packages, "
-        "with -s or the default search paths), check (new tree / new reference) on a git repository made of the layout; histories on one loader (load root, resolve_aliases loading external packages, load two more packages "
+        "with -s or the default search paths), check (new tree / new reference) on a git repository made of the layout; process histories (the root package imported before the load: top level only / some modules / all; sentinels reset afterwards), "
+        "packages with a lazy module-level __getattr__ importing their submodules (a submodule that fails after touching sys.path is imported a "
+        "second time by the fallback attribute walk); histories on one loader (load root, resolve_aliases loading external packages, load two more packages "
         "of the layout preferring those with compiled submodules, resolve again; options looked at after every call); plus griffe.dynamic_import (with / "
         "without import paths) and griffe.inspect called directly. A case is non-trivial when some agent is chosen or an import is attempted; distinct "
         "by (tree, entry, options). Exhaustive: ladder over 2x2x2x9 suffixes, not-found guard over 2x2, gates over 3x2^4.")
@@ -115,7 +117,7 @@ def translate(ctx):
 
 # ------------------------------------------------------------------------------------------------ generated layouts
 def mk_mod(parts, kind, **kw):
-    m = {"parts": list(parts), "kind": kind, "effects": [], "fault": None, "vfault": None, "walk": None, "hooks": {}}
+    m = {"parts": list(parts), "kind": kind, "effects": [], "fault": None, "vfault": None, "walk": None, "hooks": {}, "lazy": False}
     m.update(kw)
     return m
 
@@ -153,8 +155,12 @@ def rand_children(rng, prefix, names, p_fault, kinds=("py", "py", "py", "py", "p
 
 
 def add_hooks(rng, mods):
-    """a package module may answer getattr for the name of a failing child with an exception of its own"""
+    """a package module may answer getattr for the name of a failing child with an exception of its own,
+    or import its submodules lazily through a module-level __getattr__ (PEP 562)"""
     by = {tuple(m["parts"]): m for m in mods if m["kind"] == "init"}
+    for m in by.values():
+        if rng.random() < 0.35:
+            m["lazy"] = True
     for m in mods:
         par = by.get(tuple(m["parts"][:-1]))
         if par is not None and m is not par and (m["fault"] or m["kind"] == "so" or m["vfault"]) and rng.random() < 0.35:
@@ -281,6 +287,10 @@ def systematic_trees():
                             m["fault"] = fault
                         if eff:
                             m["effects"] = [EFFECTS[(k + i) % len(EFFECTS)] for i in range(2)]
+                if k % 3 == 0:
+                    for m in mods:
+                        if m["kind"] == "init":
+                            m["lazy"] = True
                 ext = mk_pkg("ext1", "sp1", "regular", [mk_mod(["ext1"], "init"), mk_mod(["ext1", "x"], "pyc")])
                 sib = mk_pkg("_p", "sp1", "regular", [mk_mod(["_p"], "init"), mk_mod(["_p", "y"], "so")])
                 deps = [{"target": "ext1", "wild": False, "exported": True}, {"target": "_p", "wild": k % 2 == 0, "exported": True},
@@ -346,13 +356,16 @@ def source_of(pkg, m):
     lines += [effect_code(e) for e in m["effects"]]
     if m["fault"]:
         lines.append(FAULT_CODE[m["fault"]])
-    if m["walk"] or m["hooks"]:
+    if m["walk"] or m["hooks"] or m.get("lazy"):
         g = ["def __getattr__(name):"]
         if m["walk"]:
             lines.append(f'def __dir__():\n    return ["VALUE_{last}", "c15boom"]')
             g.append('    if name == "c15boom":\n        raise ' + RAISE[m["walk"]])
         for part, x in sorted(m["hooks"].items()):
             g.append(f'    if name == {part!r}:\n        raise ' + RAISE[x])
+        if m.get("lazy"):       # the package imports its submodules on first attribute access
+            kids = sorted({x["parts"][-1] for x in pkg["mods"] if x["parts"][:-1] == m["parts"]})
+            g.append(f'    if name in {tuple(kids)!r}:\n        return __import__("importlib").import_module(__name__ + "." + name)')
         g.append("    raise AttributeError(name)")
         lines.append("\n".join(g))
     exported = [f"VALUE_{last}"] + ([f"thing_{pkg['name']}"] if is_top else [])
@@ -533,7 +546,8 @@ def world_of(base, tree, case, order=None):
                 attrs.append([list(m["parts"]), part, [x]])
     if case.get("builtin"):
         behs.append([[case["builtin"]], [], False, [], []])
-    return [finds, behs, attrs, walks]
+    lazy = [list(m["parts"]) for p in tree["pkgs"] if p["kind"] != "stubsonly" for m in p["mods"] if m["kind"] == "init" and m.get("lazy")]
+    return [finds, behs, attrs, walks, lazy]
 
 
 # ------------------------------------------------------------------------------------------------ cases
@@ -615,9 +629,23 @@ def run_case(c, griffe, L, I, Path):
         sys.path[:] = keep
     if c.get("syspath_add"):        # the usual situation: the analysed packages are importable from the running interpreter
         sys.path[:0] = c["syspath_add"]
+    if c.get("preimport"):
+        # process history: the analysed package (all of it, part of it, its top level only) was imported before the load
+        import importlib
+        keep_obj, keep = sys.path, list(sys.path)
+        for nm in c["preimport"]:
+            try:
+                importlib.import_module(nm)
+            except BaseException:  # noqa: BLE001
+                pass
+        sys.path = keep_obj
+        sys.path[:] = keep
+        open(c["log"], "w").close()
+        builtins._c15_hits = []
     orig = sys.path
     before = list(orig)
     mods_before = set(sys.modules)
+    premods = sorted(m for m in sys.modules if m.split(".")[0] in tuple(c["names"]))
     events, loads, holder, loaders, reads, current = [], [], {}, [], [], [None]
     GL = L.GriffeLoader
     def dotted(name, parent):
@@ -724,6 +752,7 @@ def run_case(c, griffe, L, I, Path):
         res["message"] = str(e)[:300]
     Path.read_text = ort
     res["before"] = before
+    res["premods"] = premods
     res["path_same_object"] = sys.path is orig
     res["path_same_contents"] = list(sys.path) == before
     res["orig_contents_same"] = list(orig) == before
@@ -1086,8 +1115,9 @@ def model_input(base, tree, case, reqs, obs):
     o = case["opts"]
     before = obs.get("before") or ["<orig>"]
     syspath = [parts_of(x) for x in before]
+    premods = [m.split(".") for m in obs.get("premods", [])]       # what the process had imported before (sys.modules pre-state)
     if case.get("entry"):
-        return ["entry", o["allow_inspection"], o["force_inspection"], True, phases_of(base, tree, case, obs), syspath]
+        return ["entry", o["allow_inspection"], o["force_inspection"], True, phases_of(base, tree, case, obs), syspath, premods]
     order = {}
     for i, e in enumerate(obs.get("events", [])):
         order.setdefault((e[1], e[2]), []).append(i)
@@ -1099,14 +1129,14 @@ def model_input(base, tree, case, reqs, obs):
                 break         # the history stopped before this call (an exit escaped)
             steps.append([st[2], trees[:1], trees[1:]] if st[0] == "load" else [True, [], trees])
         return ["history", o["allow_inspection"], o["force_inspection"], True, [parts_of(x) for x in resolved_unique(case["search"])],
-                world_of(base, tree, case, order), steps, SWALLOWED, syspath]
+                world_of(base, tree, case, order), steps, SWALLOWED, syspath, premods]
     trees = request_trees(obs.get("loads", []))
     if trees:
         trees[0][0] = root_key(tree, case)
     given = [] if case["search"] is None else resolved_unique(case["search"])
     front = [x for x in (case["eff_search"] or []) if x not in given] if case["search"] is not None else []
     ph = ["load", world_of(base, tree, case, order), [parts_of(x) for x in given], [parts_of(x) for x in front], o["submodules"], trees[:1], trees[1:]]
-    return ["entry", o["allow_inspection"], o["force_inspection"], True, [ph], syspath]
+    return ["entry", o["allow_inspection"], o["force_inspection"], True, [ph], syspath, premods]
 
 
 def resolved_unique(paths):
@@ -1203,6 +1233,12 @@ def check_load(ctx, base, tree, case, o, G, use_model, batch):
     ctx.observe("mode", "static" if static else "allow" if not opts["force_inspection"] else "force" if not opts["allow_inspection"] else "allow+force")
     ctx.observe("by", case["by"])
     ctx.observe("importable_from_sys_path", bool(case.get("syspath_add")))
+    ctx.observe("already_imported", "none" if not case.get("preimport") else "nothing stayed" if not o.get("premods") else
+                "top only" if all("." not in x for x in o["premods"]) else "partly")
+    ctx.observe("lazy_getattr", any(m.get("lazy") for p in tree["pkgs"] for m in p["mods"]))
+    lazy_pkgs = {".".join(m["parts"]) for p in tree["pkgs"] for m in p["mods"] if m.get("lazy")}
+    twice = [n for n, k in Counter(e["exec"] for e in o["execs"]).items() if k > 1 and n.rpartition(".")[0] in lazy_pkgs]
+    ctx.observe("lazy_reimport_of_failed_submodule", bool(twice))
     ctx.observe("rootkind", tree["pkgs"][0]["kind"] if not case.get("builtin") else "builtin")
     ctx.observe("result", o["result"])
     ctx.observe("n_execs", min(len(o["execs"]), 9))
@@ -1320,6 +1356,7 @@ def compare_models(ctx, base_of, batch):
             continue
         m = canon_model(out, set(case["names"]) | ({case["builtin"]} if case.get("builtin") else set()), o.get("before") or ["<orig>"])
         r = canon_obs(o, root_key(tree, case) if case.get("entry") != "dump" and case["kind"] != "history" else None, root_indices(case, o))
+        m["mods"] -= set(o.get("premods", []))
         if case.get("builtin"):
             m["mods"] -= {case["builtin"]}
             r["loaded"] -= {x for x in r["loaded"] if x != case["builtin"]}
@@ -1552,8 +1589,16 @@ def build_cases(ctx, base_root, n_random, per_tree_static, per_tree_dyn, with_sy
             o = static_opts(rng)
             o.update(allow_inspection=True, force_inspection=rng.random() < 0.3)
             combos.append((o, "stale_search"))
+        modnames = sorted({".".join(m["parts"]) for m in t["pkgs"][0]["mods"] if m["kind"] not in ("pyi", "initpyi")}, key=lambda n: (n.count("."), n))
         for o, by in combos:
-            cases.append((t, make_case(base, t, cid, o, by)))
+            c = make_case(base, t, cid, o, by)
+            if modnames and by in ("name", "path", "default_search") and (rng.random() < 0.3 or (systematic and cid % 4 == 0)):
+                # process history: the package was imported before -- its top level only, some of its modules, or all of them
+                how = rng.choice(["top", "top", "some", "all"])
+                c["preimport"] = modnames[:1] if how == "top" else modnames if how == "all" else [n for n in modnames if rng.random() < 0.5]
+                c["syspath_add"] = [str(base / sp) for sp in t["sps"]]
+                c["extra"] = "preimport:" + how
+            cases.append((t, c))
             cid += 1
         # histories on one loader: load, resolve_aliases (loading external packages), load again
         if len(t["pkgs"]) > 1 and ((not systematic and rng.random() < 0.3) or (systematic and int(t["tid"][1:]) % 3 == 0)):
@@ -1628,7 +1673,7 @@ def explore(ctx):
             "model_branch": ["orphan", "skip.so", "skip.py", "skip.pyc"],
             "by": ["name", "path", "relpath", "hidden", "missing_path", "stale_search", "default_search", "load_git", "dump", "check_tree", "check_ref", "history"],
             "entry_point": ["load", "load_git", "dump", "check_old", "check_new_ref", "check_new_tree"], "finder_paths": ["given", "sys.path"],
-            "load_nesting_depth": [0, 1, 2],
+            "load_nesting_depth": [0, 1, 2], "already_imported": ["none", "top only", "partly"], "lazy_getattr": [True, False], "lazy_reimport_of_failed_submodule": [True, False],
             "effect_executed": ["ins0", "rebind", "clear", "scope:sys_path", "scope:dynamic_import_fail", "scope:dynamic_import_ok", "scope:inspect_ok",
                                 "scope:load_ok", "scope:load_fail"]}
     for d, keys in need.items():
